@@ -1353,6 +1353,7 @@ class Context:
             # Share the running evaluation's deadline and host-stack budget
             vm.start_time = self._current_vm.start_time
             vm.host_depth = self._current_vm.host_depth
+            vm._poll_deadline()
         else:
             vm.start_time = time.monotonic()
         result = vm._call_callback(func, args, UNDEFINED)
